@@ -445,9 +445,18 @@ impl<'a> Model<'a> {
             | Cell::BooleanCell { .. }
             | Cell::NumberCell { .. }
             | Cell::ErrorCell { .. }
-            | Cell::SharedString { .. }
-            | Cell::CellFormula { .. } => {
-                // This is a regular cell, we can just move it.
+            | Cell::SharedString { .. } => {
+                // A cell without a formula is moved as it is. Typing its text again
+                // would change it: `'12` would become a number, a number would be
+                // cut to its displayed digits, URL-like text would get a new link.
+                let cell = source_cell.clone();
+                let worksheet = self.workbook.worksheet_mut(sheet)?;
+                worksheet.update_cell(target_row, target_column, cell)?;
+                worksheet.remove_cell(source_row, source_column)?;
+                return Ok(());
+            }
+            Cell::CellFormula { .. } => {
+                // The formula is written again at the new position (see below).
             }
             Cell::SpillCell { .. } => {
                 // This the spill of an array formula. Because dynamic arrays spills have been deleted
